@@ -144,4 +144,12 @@ theorem C04_not_failed (w : World) (hv : Valid w) : (c04Model w).failed = false 
 example : specImports exW 1 = [0] := by decide
 example : Reach (specImports exW) 1 0 := .step (by decide)
 
+/-- **C04 (imports of a field / extension)**: computed from the declarative type of that very
+    field: the file of the enum / message it references (directly, as element or as map value) when
+    that is another file. -/
+theorem C04_field_imports (w : World) (hv : Valid w) (g : Graph) (hg : hydrate w = .ok g) :
+    ∀ x ∈ allFields w ++ allExts 0 w.files, fieldImports g x.1 = typeImports x.1.file (specType w x.2) := by
+  intro x hx
+  simp only [fieldImports, C03_type_of w hv g hg x hx]
+
 end Pgs.AST
